@@ -225,6 +225,7 @@ static RunSpec derive_spec(const std::string& world, int variant, uint64_t run_s
     g.repeats = true;
     g.small_pools = true;
     g.history_mode = true;
+    g.q120 = true;
     g.allow_ties = true;
     g.tiny_values = true;
     g.zero_sizes = true;
